@@ -775,9 +775,10 @@ class Grammar(Serialize):
 
                 for sym in expansion:
                     assert isinstance(sym, Symbol)
-                    if sym.is_term and exp_options and exp_options.keep_all_tokens:
-                        assert isinstance(sym, Terminal)
-                        sym.filter_out = False
+                if exp_options and exp_options.keep_all_tokens:
+                    # The symbol objects may be shared with other rules (instances of templates): keep the tokens of this
+                    # rule without changing what the others filter
+                    expansion = [Terminal(sym.name, filter_out=False) if sym.is_term and sym.filter_out else sym for sym in expansion]
                 rule = Rule(NonTerminal(name), expansion, i, alias, exp_options)
                 compiled_rules.append(rule)
 
